@@ -246,7 +246,14 @@ func startServerEngine(d *simdisk.Disk, closeAfterIdle, writeInterval int64, v2e
 // finished within the simulated timeout.
 func (s *simServer) stop(timeout time.Duration) bool {
 	id := simrt.GoID(func() {
+		// the sequence of server.Stop: mark shutting down (new requests are refused), let the gRPC server drain
+		// the unary RPCs that are in flight for at most 60 s (gRPCGracefulStopTimeout), then flush and close the
+		// swamps. The transport is a stub here; the system lock every handler holds from entry to return tells
+		// whether a request is still in flight.
 		s.zeus.GetHydra().MarkShuttingDown()
+		for i := 0; i < 600 && s.zeus.GetSafeops().SystemLocked(); i++ {
+			simrt.Sleep(100 * time.Millisecond)
+		}
 		s.zeus.StopHydra()
 	})
 	return simrt.JoinIDs([]int32{id}, timeout)
